@@ -164,6 +164,7 @@ package object
 //@ func (Object).Type
 //@ trusted
 //@ modifies nothing
+//@ ensures (result == NIL) == (typeof(self) == *NilType)
 
 //@ func (Object).Inspect
 //@ trusted
